@@ -268,10 +268,22 @@ class HarnessError(Exception):
 
 
 def _child_main(fn, chunk, out_path, per_chunk_timeout):
-    faulthandler.enable()
-    faulthandler.dump_traceback_later(per_chunk_timeout, exit=True)
-    results = []
+    # Never returns.  stdout of children is discarded (the code under test may print
+    # to, replace or even close it); stderr goes to a per-chunk file shown on failure.
     try:
+        try:
+            dn = os.open(os.devnull, os.O_RDWR)
+            os.dup2(dn, 0)
+            os.dup2(dn, 1)
+            os.close(dn)
+            ef = os.open(out_path + ".err", os.O_WRONLY | os.O_CREAT | os.O_TRUNC, 0o644)
+            os.dup2(ef, 2)
+            os.close(ef)
+        except OSError:
+            pass
+        faulthandler.enable()
+        faulthandler.dump_traceback_later(per_chunk_timeout, exit=True)
+        results = []
         for item in chunk:
             try:
                 results.append(fn(item))
@@ -287,9 +299,12 @@ def _child_main(fn, chunk, out_path, per_chunk_timeout):
         with open(tmp, "w") as f:
             json.dump(results, f, default=repr)
         os.replace(tmp, out_path)
+    except BaseException:  # noqa: BLE001
+        try:
+            os.write(2, ("CHILD-ERROR " + traceback.format_exc()[-3000:] + "\n").encode())
+        except OSError:
+            pass
     finally:
-        sys.stdout.flush()
-        sys.stderr.flush()
         os._exit(0)
 
 
@@ -355,12 +370,15 @@ def run_pool(fn, items: list, *, workers: int, chunk_size: int, per_chunk_timeou
                         if on_result is not None:
                             on_result(r)
             else:
+                err = ""
+                with contextlib.suppress(OSError):
+                    err = open(out + ".err", errors="replace").read()[-4000:]
                 problems.append(
                     {
                         "status": "error",
                         "item": repr(chunks[idx])[:300],
                         "error": f"child for chunk {idx} died (status {status}) without results "
-                        f"after {real_monotonic() - t0:.1f}s",
+                        f"after {real_monotonic() - t0:.1f}s\n{err}",
                     }
                 )
     finally:
